@@ -169,8 +169,10 @@ def run_case(case, ctx):
         ok, lm = ctx.call(api, case, BoolCFGLM, cfg, alg=alg)
         if not ok:
             continue
-        for ci, c in enumerate(contexts):
-            cc = dict(case, context=list(c), alg=alg)
+        second = [c for c in contexts if len(c) < case["maxlen"]]
+        random.Random(len(contexts)).shuffle(second)
+        for ci, c in enumerate(contexts + second[:25]):
+            cc = dict(case, context=list(c), alg=alg, second_pass=ci >= len(contexts))
             if case.get("clear_every") and ci % case["clear_every"] == case["clear_every"] - 1:
                 ctx.shape["clear_cache-between-queries"] += 1
                 ctx.call(api, cc, lm.clear_cache)
